@@ -486,6 +486,8 @@ func parseSearchQuery(query, countryCode string, withLogin bool) ([][]string, []
 		rewrittenVal string
 	}
 	type context struct {
+		// The previous lexem was a closing quote: it must be followed by an operator or the end of the query.
+		closed bool
 		// Pre-token operand
 		preOp int
 		// Post-token operand
@@ -525,10 +527,21 @@ func parseSearchQuery(query, countryCode string, withLogin bool) ([][]string, []
 			}
 		}
 
+		if ctx.closed {
+			if curr == ORD || curr == QUO {
+				// Reject strings like "a"b
+				return nil, nil, fmt.Errorf("missing operator at or near %d", pos)
+			}
+			ctx.closed = false
+		}
+
+		// The current lexem opens a quoted string.
+		var opened bool
 		if curr == QUO {
 			if ctx.quo {
 				// End of the quoted string. Close the quote.
 				ctx.quo = false
+				ctx.closed = true
 			} else {
 				if prev == ORD {
 					// Reject strings like a"b
@@ -536,7 +549,7 @@ func parseSearchQuery(query, countryCode string, withLogin bool) ([][]string, []
 				}
 				// Start of the quoted string. Open the quote.
 				ctx.quo = true
-				ctx.unquote = true
+				opened = true
 			}
 			curr = ORD
 		}
@@ -578,7 +591,7 @@ func parseSearchQuery(query, countryCode string, withLogin bool) ([][]string, []
 		}
 
 		if emit {
-			if ctx.quo {
+			if ctx.quo && curr == END {
 				return nil, nil, fmt.Errorf("unterminated quoted string at or near %d", pos)
 			}
 
@@ -609,6 +622,10 @@ func parseSearchQuery(query, countryCode string, withLogin bool) ([][]string, []
 			ctx.preOp = ctx.postOp
 			ctx.postOp = NONE
 			ctx.unquote = false
+		}
+		if opened {
+			// The token which starts here is quoted (the flag is set after the previous token is emitted).
+			ctx.unquote = true
 		}
 
 		prev = curr
